@@ -264,6 +264,10 @@ func checkC16(c *Ctx) *report.Result {
 		b, isc := boolConst(c.cellBool(c.W.It.StateOn(c.W.InitHeap), oam, ".dmaRunning"))
 		r.Ob("D-idle", isc && !b, "no transfer is running in the machine gameboy.New returns", "", fmt.Sprintf("running flag after construction: %s (documented: a transfer starts only when FF46 is written)", ai.ValueString(c.cellBool(c.W.It.StateOn(c.W.InitHeap), oam, ".dmaRunning"))))
 	}
+	r.Rule("D-inst", "the DMA unit, its bus reader included, belongs to its machine: nothing in package oam that New or the run phase writes is package-level (rule G2 of C25 restricted to package oam)")
+	adopt(r, c.sibling("C25"), map[string]string{"G2": "D-inst"}, "a transfer that reads through another machine's bus copies that machine's bytes", func(f report.Finding) bool {
+		return strings.Contains(f.Construct, "oam.") || strings.Contains(f.Where, "gameboy/oam/")
+	})
 	return r
 }
 
